@@ -239,6 +239,27 @@ void e_normal_family(void)
         sym_assert(FINITE(r), "Cauchy variate is finite");
     }
 }
+/* the fall-back (not-hot) paths of the two ziggurat samplers, entered directly with an arbitrary candidate whose layer
+ * index lies above the hot range: alias sampling of the overhang, table look-ups for every index byte, integer
+ * reflections, the tail iteration */
+extern double cmi_random_exp_not_hot(uint64_t u_cand_x);
+extern double cmi_random_nor_not_hot(int64_t i_cand_x);
+extern const uint8_t cmi_random_exp_zig_max, cmi_random_nor_zig_max;
+void e_exp_nothot(void)
+{
+    uint64_t u = sym_u64("cand");
+    sym_assume((u & 0xff) > cmi_random_exp_zig_max);
+    double r = cmi_random_exp_not_hot(u);
+    sym_assert(FINITE(r) && r >= 0.0, "exponential variate (fall-back path) is non-negative and finite");
+}
+void e_nor_nothot(void)
+{
+    uint64_t u = sym_u64("cand");
+    sym_assume((u & 0xff) > cmi_random_nor_zig_max);
+    double r = cmi_random_nor_not_hot((int64_t)u);
+    sym_assert(FINITE(r), "normal variate (fall-back path) is finite");
+}
+
 void e_poisson(void)
 {
     double rate = symd("rate", 0.01, 3.0);
@@ -249,4 +270,4 @@ void e_poisson(void)
 const struct sym_entry sym_entries[] = { {"e_uniform", e_uniform}, {"e_triangular", e_triangular}, {"e_dice", e_dice}, {"e_loaded_dice", e_loaded_dice},
     {"e_alias", e_alias}, {"e_pareto", e_pareto}, {"e_geometric", e_geometric}, {"e_negbinomial", e_negbinomial}, {"e_binomial", e_binomial}, {"e_exponential", e_exponential},
     {"e_logistic", e_logistic}, {"e_std_gamma", e_std_gamma}, {"e_gamma", e_gamma}, {"e_beta", e_beta}, {"e_pert", e_pert}, {"e_chisq_f_t", e_chisq_f_t},
-    {"e_exp_family", e_exp_family}, {"e_normal_family", e_normal_family}, {"e_poisson", e_poisson}, {0, 0} };
+    {"e_exp_family", e_exp_family}, {"e_normal_family", e_normal_family}, {"e_poisson", e_poisson}, {"e_exp_nothot", e_exp_nothot}, {"e_nor_nothot", e_nor_nothot}, {0, 0} };
